@@ -243,6 +243,47 @@ class Fn:
         self.rewrites.append(('SPEC-bind-arg', f'{n} of {len(ms)} `{prefix}..)` statements: argument bound to a local and pinned by an assert', ''))
         return self
 
+    def pin_call_args_keyed(self, prefix, pins):
+        """spec-only: every statement `PREFIX(ARG);` whose ARG (whitespace-collapsed) matches the key regex of a pin (first match wins) becomes
+        `{ let e_ = ARG; proof { assert(SPEC(e_)); } PREFIX(e_); }`; the key only SELECTS which spec applies -- a call matching no key stays unpinned
+        (its effect is then whatever the callee's contract says, and the enclosing proof fails if that is not what the spec needs)."""
+        ms = _find_all(prefix, self.body)
+        used = []
+        for k in reversed(range(len(ms))):
+            i = ms[k].end() - 1
+            assert self.body[i] == '(', 'prefix must end with ('
+            j = match_brace(self.body, i)
+            arg = self.body[i + 1:j].strip().rstrip(',')
+            flat = re.sub(r'\s+', ' ', arg)
+            hit = next(((lab, spec) for lab, key, spec in pins if re.search(key, flat)), None)
+            if hit is None:
+                continue
+            e = j + 1
+            while self.body[e] in ' \n\t':
+                e += 1
+            if self.body[e] != ';':
+                continue
+            label, spec = hit
+            new = f"{{ let e_ = {arg}; proof {{ assert({spec}); // @@A:{label}\n }} {prefix}e_); }}"
+            self.body = self.body[:ms[k].start()] + new + self.body[e + 1:]
+            self.spec_inserts += 1
+            used.append(label)
+        self.rewrites.append(('SPEC-bind-arg', f'{len(used)} of {len(ms)} `{prefix}..)` statements: argument bound to a local and pinned by an assert (selected by gate name)', ''))
+        return used
+
+    def loop_ordinal_enclosing(self, hdr, marker):
+        """ordinal (among the textual occurrences of `hdr`) of the innermost loop with head `hdr` whose body contains `marker`; None if there is none"""
+        pos = self.body.find(marker)
+        if pos < 0:
+            return None
+        best = None
+        for n, m in enumerate(_find_all(hdr, self.body)):
+            o = self.body.index('{', m.end())
+            c = match_brace(self.body, o)
+            if o < pos < c:
+                best = n
+        return best
+
     def at_loop_end(self, loop_anchor, text, nth=0):
         """spec-only: insert text at the end of the body of the loop whose header contains `loop_anchor`"""
         i = self._loop_open(loop_anchor, nth)
@@ -740,7 +781,7 @@ def _split_method_chain(expr):
     return head, calls
 
 
-_ITER_METHODS = {'iter', 'into_iter', 'flat_map', 'map', 'copied', 'chain', 'cloned'}
+_ITER_METHODS = {'iter', 'into_iter', 'flat_map', 'map', 'copied', 'chain', 'cloned', 'filter'}
 
 
 def _is_iter_expr(expr):
@@ -827,6 +868,23 @@ def _compile_seg(expr, sink, g):
             return consume(f'(*{elem})' if kind == 'ref' else elem, 'val', tail)
         pat, body = _closure(arg)
         b = _bind(pat, elem) if kind == 'ref' else (f'let {pat[1:].strip() if pat.startswith("&") else pat} = {elem};')
+        if name == 'filter':
+            # the predicate sees a reference to the item: item type is &T for kind 'ref', T for kind 'val'
+            amps = len(pat) - len(pat.lstrip('&'))
+            nm = pat.lstrip('&').strip()
+            have = 1 if kind == 'ref' else 0          # elem is a & (1) or a value (0); the closure parameter has one more &
+            need = have + 1 - amps                    # number of & the bound name must carry
+            if need < 0:
+                raise ExtractError('filter pattern dereferences more than the item type allows')
+            src_e = elem
+            cur = have
+            while cur > need:
+                src_e = f'(*{src_e})'
+                cur -= 1
+            while cur < need:
+                src_e = f'(&{src_e})'
+                cur += 1
+            return '{ let ' + nm + ' = ' + src_e + '; if ' + body + ' { ' + consume(elem, kind, tail) + ' } }'
         if name == 'map':
             return '{ ' + b + ' ' + consume(f'({body})', 'val', tail) + ' }'
         if name == 'flat_map':
@@ -852,7 +910,7 @@ def uniter_collect(f):
     g = _Gen()
     while True:
         m = None
-        for mm in re.finditer(r'\.\s*collect\(\)', f.body):
+        for mm in re.finditer(r'\.\s*collect(?:::<Vec<_>>)?\(\)', f.body):
             # receiver: back to the statement start
             j = mm.start()
             depth, i = 0, j - 1
@@ -868,7 +926,7 @@ def uniter_collect(f):
                     break
                 i -= 1
             recv = f.body[i + 1:j]
-            if re.search(r'\.\s*(flat_map|chain)\s*\(', recv) and _is_iter_expr(recv.strip()):
+            if re.search(r'\.\s*(flat_map|chain|filter)\s*\(', recv) and _is_iter_expr(recv.strip()):
                 m = (i + 1, mm.end(), recv)
                 break
         if not m:
@@ -980,4 +1038,24 @@ def unmap_or(f):
         n += 1
     if n:
         f.rewrites.append(('R6', f'{n}x `opt.map_or(d, |x| BODY)` -> match (BODY verbatim)', ''))
+    return f
+
+
+def unget_or_insert(f):
+    """R6: statement `LV.get_or_insert(V);` (result unused) -> `if LV.is_none() { LV = Some(V); }` (LV = the place expression at the start of the statement)"""
+    n = 0
+    while True:
+        m = re.search(r'(?<=[;{}])(\s*)([\w.\[\]\s]+?)\s*\.\s*get_or_insert(\()', f.body)
+        if not m:
+            break
+        close = match_brace(f.body, m.start(3))
+        if not re.match(r'\s*;', f.body[close + 1:]):
+            break
+        end = close + 1 + re.match(r'\s*;', f.body[close + 1:]).end()
+        lv = m.group(2).strip()
+        v = f.body[m.start(3) + 1:close]
+        f.body = f.body[:m.start()] + f'{m.group(1)}if {lv}.is_none() {{ {lv} = Some({v}); }}' + f.body[end:]
+        n += 1
+    if n:
+        f.rewrites.append(('R6', f'`LV.get_or_insert(V);` -> `if LV.is_none() {{ LV = Some(V); }}` x{n}', ''))
     return f
